@@ -300,7 +300,8 @@ Record v2in := mk_v2in {
   vi_keys : N; vi_kcommit : option bytes;         (* IssuanceInflationKeys, ...Commitment *)
   vi_nonce : option bytes;                        (* IssuanceBlindingNonce *)
   vi_entropy : option bytes;                      (* IssuanceAssetEntropy *)
-  vi_blinded : option bool }.                     (* BlindedIssuance *)
+  vi_blinded : option bool;                       (* BlindedIssuance *)
+  vi_pegin : bool }.                              (* PeginWitness != nil *)
 
 Record v2out := mk_v2out {
   vo_value : N; vo_asset : bytes; vo_script : bytes; vo_bkey : bytes; vo_bidx : N;
@@ -385,7 +386,7 @@ Definition v2_add_in_issuance (p : v2pkt) (idx : Z) (a : iss_args) : bool * v2pk
           let k := Z.to_nat idx in
           let p1 := v2_set_in p k (fun i =>
             mk_v2in (vi_txid i) (vi_index i) (vi_seq i) (ia_asset a) (vi_vcommit i) (ia_token a) (vi_kcommit i)
-                    (Some (iss_nonce (ie_iss iss))) (Some (ie_chash iss)) (Some (ia_blinded a))) in
+                    (Some (iss_nonce (ie_iss iss))) (Some (ie_chash iss)) (Some (ia_blinded a)) (vi_pegin i)) in
           let asset := match generate_asset iss with Some x => x | None => [] end in
           let bidx := Z.to_N idx mod 4294967296 in
           match v2_add_output p1 (v2_new_output asset (ia_asset a) (ia_aaddr a) bidx bidx) with
@@ -431,7 +432,7 @@ Definition v2_add_in_reissuance (p : v2pkt) (idx : Z) (a : reiss2_args) : bool *
       | Some p2 =>
         (true, v2_set_in p2 (Z.to_nat idx) (fun i =>
            mk_v2in (vi_txid i) (vi_index i) (vi_seq i) (r2_asset a) (vi_vcommit i) (vi_keys i) (vi_kcommit i)
-                   (Some (r2_blinder a)) (Some entropy) (vi_blinded i)))
+                   (Some (r2_blinder a)) (Some entropy) (vi_blinded i) (vi_pegin i)))
       end
     end
   end.
@@ -454,6 +455,9 @@ Definition tx_issuance_of (i : v2in) : option issuance :=
                    end in
       Some (mk_iss (iss_obytes (vi_nonce i)) e amount token)
   end.
+(* both views set TxInput.IsPegin = (PeginWitness != nil), independently of the issuance *)
+Definition unsigned_pegin (i : v2in) : bool := vi_pegin i.
+Definition extract_pegin (i : v2in) : bool := vi_pegin i.
 Definition unsigned_issuance (i : v2in) : option issuance := tx_issuance_of i.
 Definition extract_issuance (i : v2in) : option issuance := tx_issuance_of i.
 
